@@ -1,7 +1,19 @@
 """Level texts for MANIFEST.json."""
-HOOK_COMMITS = ["645c65a", "e34ba59"]
+HOOK_COMMITS = ["645c65a", "e34ba59", "f51c5d9"]
 NOT_APPLICABLE = {}
 LEVELS = {
+    "C19": {
+        "text": "Proof: C19_prefix (gas-bounded prefix of the queue from the pointer with the at-least-one rule, for every queue, pointer and "
+                "gas limit), C19_sorted / C19_slot_first (sorted request, slot identity first under the stated assumption), C19_row_order / "
+                "C19_agree (byte-identical requests whatever the physical row order), C19_pointer_advance / C19_pointer_start / "
+                "C19_pointer_history / C19_pointer_next / C19_restart (pointer p+k-1 with age zero after keys, and where the next request "
+                "starts, through every interleaving of submissions and slot ticks). The model is tied to newslot.go, handlers.go and "
+                "messagingmiddleware.go by running the real slot handler, keys handler and middleware over the PostgreSQL fake; the SQL "
+                "text is pinned from the source on every run; the statement is also evaluated directly on the implementation's outputs.",
+        "design_ref": "DESIGN.md §4 C19",
+        "note": "Trusted: Lean kernel; correspondence harness incl. pgfake/kdb and the beacon fake; the verif-tag hook; uint64 gas sums not modelled.",
+        "technique": "Lean 4 theorems (induction over queue and operation lists, sorted-permutation uniqueness) + differential runs of the real slot handler over an in-process PostgreSQL fake",
+    },
     "C20": {
         "text": "Proof: C20_all_once — for every number of eon keys pending at a polling tick, every order in which the database returns "
                 "them, both publication modes: if they belong to keyper sets the keyper is a member of and the publication mechanism "
